@@ -94,7 +94,7 @@ def run(shard, rec, tier, seed):
             continue
         rec.count("base-trees")
         rng = random.Random("C17-%d-%d" % (seed, ti))
-        muts = list(illform.instruction_mutants(spec, rng, PER[tier])) + list(illform.type_mutants(spec, rng, 1 if tier == "quick" else 3))
+        muts = list(illform.instruction_mutants(spec, rng, PER[tier])) + list(illform.type_mutants(spec, rng, 1 if tier == "quick" else 3)) + list(illform.instruction_mutants(spec, rng, PER[tier], ops=illform.LATE_OPS))
         for rule, opname, placement, mut in muts:
             errs = grammar.check(mut)
             rules = {e[0] for e in errs}
